@@ -117,6 +117,17 @@ def check(run: Run) -> None:
             run.finding("C12.d", "activate_branch:old-not-stopped", "the new branch can start while an old one is still running: " + fl.path_text(w), loc=SW)
         R.k2_follow(run, "C12.d", fl, st, R.call_is(name="schedule_sampled_input_consumers"), "start is followed by sampling the held inputs",
                     exits="normal", after="completed")
+        cn = R.aliases_of(fa)
+        # the fresh branch's inputs are bound SAMPLED: the branch sees the held inputs as modified at activation
+        for nm, pos in (("bind_branch_inputs", 4),):
+            cs = R.calls(fa, nm)
+            run.sites(len(cs), 1, nm)
+            for c in cs:
+                run.count(1, f"C12.d.sampled.{nm}")
+                arg = cn(c.args[pos]) if len(c.args) > pos else "<default false>"
+                if arg != "true":
+                    run.finding("C12.d", f"activate_branch:{nm}:unsampled", f"activation must bind the fresh branch sampled ({nm} argument {pos} is {arg}): "
+                                f"the new branch would not see held inputs as modified in its first cycle", loc=fa.loc(c))
         fa = R.fn(run, SW, "switch_teardown")
         fl = R.flow(run, fa)
         stp = R.call_is(name="stop", recv=r"active->view\(\)|storage\.active_graph\(\)->view\(\)")
@@ -159,6 +170,7 @@ def check(run: Run) -> None:
 
 
 VARIANTS = [
+    {"id": "d-inputs-bound-unsampled", "expect": "C12.d", "edits": [{"file": SW, "find": "  bind_branch_inputs(view, spec, next, evaluation_time, true);", "replace": "  bind_branch_inputs(view, spec, next, evaluation_time);"}]},
     {"id": "a-reselect-on-every-tick", "expect": "C12.a", "edits": [{"file": SW, "find": "    if (!storage.active_slot.has_value() || context.spec.reload_on_ticked ||\n        !same_key) {", "replace": "    if (!storage.active_slot.has_value() || context.spec.reload_on_ticked ||\n        !same_key || key_input.modified()) {"}]},
     {"id": "a-ignores-key-change", "expect": "C12.a", "edits": [{"file": SW, "find": "    if (!storage.active_slot.has_value() || context.spec.reload_on_ticked ||\n        !same_key) {", "replace": "    if (!storage.active_slot.has_value() || context.spec.reload_on_ticked) {"}]},
     {"id": "a-select-on-invalid-key", "expect": "C12.a", "edits": [{"file": SW, "find": "  if (key_input.valid() &&\n      (key_input.modified() || !storage.active_slot.has_value())) {", "replace": "  if (key_input.modified() || !storage.active_slot.has_value()) {"}]},
